@@ -762,7 +762,7 @@ Proof.
     cbn [alloc_n] in Hrun.
     destruct (alloc_cluster vi (Some last) false s) as [[c| | |] s1'] eqn:Ea;
       try (unfold bind in Hrun; rewrite Ea in Hrun; discriminate Hrun).
-    rewrite (bind_ok _ _ _ _ _ Ea) in Hrun. cbn in Hrun. inversion Hrun; subst l s1'. clear Hrun.
+    rewrite (bind_ok _ _ _ _ _ Ea) in Hrun. unfold bind, ret in Hrun. inversion Hrun; subst l s1'. clear Hrun.
     inversion Hr as [|? ? Hc _]; subst.
     assert (Hu1 : fat_get (s_disk s1) v1 0 c <> 0).
     { destruct (alloc_cluster_effect_inuse vi v fsz (Some last) false s c s1 Hpre) as (_ & _ & Hnew); [|exact Ea|].
@@ -891,3 +891,165 @@ Proof.
     exists s', v'. split; [cbn [cycles]; rewrite (bind_ok _ _ _ _ _ Hrun); exact Hrun'|].
     split; [exact Hinv|]. split; [exact (fun T => T' (T1 T))|exact (fun E => N' (N1 E))].
 Qed.
+
+(* ================================================================== 5. the info sector *)
+(* flush / volume close on FAT32 with a truthful known count: the record on the device (le32
+   at 488 of the info block) is the number of free FAT entries; nothing else on the device
+   changes, so - the info block being no FAT sector - it is the number of free entries of the
+   device as it is afterwards; the hint field holds the in-range hint or is untouched *)
+Theorem C16_info_truthful vi s v :
+  no_faults s -> cache_ok s -> nth_error (s_vols s) vi = Some v -> v_fat32 v = true ->
+  v_clusters v + 2 <= U32 -> length (disk_get (s_disk s) (v_info v)) = 512%nat ->
+  truthful (s_disk s) v ->
+  exists s', update_info_sector vi s = (Ok tt, s') /\
+    le32 (disk_get (s_disk s') (v_info v)) 488 = N.of_nat (free_entries (s_disk s) v) /\
+    (forall j, j <> v_info v -> disk_get (s_disk s') j = disk_get (s_disk s) j) /\
+    same_mgr s s' /\ no_faults s' /\ cache_ok s' /\
+    (hint_in v ->
+     le32 (disk_get (s_disk s') (v_info v)) 492 =
+     match v_next_free v with Some h => h | None => le32 (disk_get (s_disk s) (v_info v)) 492 end) /\
+    ((forall c, in_vol v c -> v_info v <> fat_sector v 0 c) ->
+     free_entries (s_disk s') v = free_entries (s_disk s) v /\
+     le32 (disk_get (s_disk s') (v_info v)) 488 = N.of_nat (free_entries (s_disk s') v)).
+Proof.
+  intros Hnf Hc Hv H32 Hcl Hlen T.
+  assert (Hsome : v_free v <> None \/ v_next_free v <> None) by (left; rewrite T; discriminate).
+  destruct (update_info_sector_spec vi s v Hnf Hc Hv H32 Hsome Hlen)
+    as (s' & nb & Hrun & _ & Hnb & Hoth & _ & _ & H488 & H492 & _ & Hc' & Hnf' & Hm & _).
+  assert (Hrec : le32 (disk_get (s_disk s') (v_info v)) 488 = N.of_nat (free_entries (s_disk s) v)).
+  { rewrite Hnb, H488, T. apply N.mod_small.
+    pose proof (free_entries_bound (s_disk s) v). unfold U32 in Hcl. lia. }
+  exists s'. split; [exact Hrun|]. split; [exact Hrec|]. split; [exact Hoth|].
+  split; [exact Hm|]. split; [exact Hnf'|]. split; [exact Hc'|].
+  split.
+  - intros Hi. rewrite Hnb, H492. destruct (v_next_free v) as [h|] eqn:E; [|reflexivity].
+    destruct (Hi h E) as (_ & B). apply N.mod_small. unfold U32 in Hcl. lia.
+  - intros Hno.
+    assert (E : free_entries (s_disk s') v = free_entries (s_disk s) v).
+    { apply free_entries_iff. intros c C1 C2.
+      rewrite (fat_get_same_sector (s_disk s) (s_disk s') v c); [tauto|].
+      apply Hoth. intros E. exact (Hno c (conj C1 C2) (eq_sym E)). }
+    split; [exact E|]. rewrite E. exact Hrec.
+Qed.
+
+(* with an unknown count the stored count field is untouched (FAT32 with or without a known
+   hint; on FAT16 nothing is written at all) *)
+Theorem C16_info_unknown_untouched vi s v :
+  no_faults s -> cache_ok s -> nth_error (s_vols s) vi = Some v ->
+  length (disk_get (s_disk s) (v_info v)) = 512%nat -> v_free v = None ->
+  exists s', update_info_sector vi s = (Ok tt, s') /\
+    le32 (disk_get (s_disk s') (v_info v)) 488 = le32 (disk_get (s_disk s) (v_info v)) 488 /\
+    (forall j, j <> v_info v -> disk_get (s_disk s') j = disk_get (s_disk s) j).
+Proof.
+  intros Hnf Hc Hv Hlen Hf.
+  destruct (v_fat32 v) eqn:H32.
+  - destruct (v_next_free v) as [h|] eqn:En.
+    + assert (Hsome : v_free v <> None \/ v_next_free v <> None) by (right; rewrite En; discriminate).
+      destruct (update_info_sector_spec vi s v Hnf Hc Hv H32 Hsome Hlen)
+        as (s' & nb & Hrun & _ & Hnb & Hoth & _ & _ & H488 & _).
+      exists s'. split; [exact Hrun|]. split; [|exact Hoth].
+      rewrite Hnb, H488, Hf. reflexivity.
+    + exists s. split; [exact (update_info_sector_none vi s v Hv Hf En)|]. split; reflexivity.
+  - exists s. split; [exact (update_info_sector_fat16 vi s v Hv H32)|]. split; reflexivity.
+Qed.
+
+(* ================================================================== 7. examples *)
+(* PrChain's example volume (FAT16, 100 clusters, chain 3 -> 4 -> 7): 97 entries are free, the
+   hypotheses of the theorems of sections 2, 3, 4 and 6 hold with last = 7 *)
+Example count_pre_example :
+  alloc_pre exc_state 0 exc_vol 2 /\ link_ok exc_vol /\ hint_in exc_vol /\
+  chain_of (s_disk exc_state) exc_vol 3 10 = Some [3; 4; 7] /\
+  in_vol exc_vol 7 /\ fat_get (s_disk exc_state) exc_vol 0 7 <> 0 /\
+  prev_inuse (s_disk exc_state) exc_vol (Some 7) /\
+  free_entries (s_disk exc_state) exc_vol = 97%nat /\
+  truthful (s_disk exc_state) (set_v_free exc_vol (Some 97)).
+Proof.
+  destruct chain_pre_example as (A & _ & B).
+  split; [exact A|]. split; [vm_compute; discriminate|].
+  split; [intros h E; inversion E; subst h; vm_compute; split; [discriminate|reflexivity]|].
+  split; [exact B|].
+  assert (I7 : in_vol exc_vol 7) by (vm_compute; split; [discriminate|reflexivity]).
+  assert (U7 : fat_get (s_disk exc_state) exc_vol 0 7 <> 0) by (vm_compute; discriminate).
+  split; [exact I7|]. split; [exact U7|].
+  split; [intros p E; inversion E; subst p; destruct I7; repeat split; assumption|].
+  split; vm_compute; reflexivity.
+Qed.
+
+(* PrAllocEffect's blank FAT32 volume satisfies the hypotheses of the alloc theorems *)
+Example count_pre_example32 :
+  alloc_pre (PrAlloc.ex_state (ex_vol true (Some 5))) 0 (ex_vol true (Some 5)) 200 /\
+  link_ok (ex_vol true (Some 5)) /\ prev_inuse (s_disk (PrAlloc.ex_state (ex_vol true (Some 5)))) (ex_vol true (Some 5)) None.
+Proof.
+  split; [exact (proj1 alloc_pre_example)|]. split; [vm_compute; discriminate|]. intros p E. discriminate E.
+Qed.
+
+(* the model really runs there: from the state above 97 chained allocations succeed, the 98th
+   fails; two full fill / free cycles run; truncating at 3 frees 2 entries, freeing from 3 frees 3 *)
+Example capacity_run_example :
+  match alloc_n 0 97 7 exc_state with
+  | (Ok l, s') => length l = 97%nat /\ free_entries (s_disk s') exc_vol = O /\
+                  fst (alloc_cluster 0 (Some (List.last l 7)) false s') = Err NotEnoughSpace /\
+                  chain_of (s_disk s') exc_vol 3 200 = Some ([3; 4; 7] ++ l)
+  | _ => False
+  end /\
+  match cycles 0 97 2 exc_state with
+  | (Ok tt, s') => free_entries (s_disk s') exc_vol = 97%nat
+  | _ => False
+  end /\
+  match truncate_cluster_chain 0 3 exc_state, free_cluster_chain 0 3 exc_state with
+  | (Ok tt, s1), (Ok tt, s2) =>
+      free_entries (s_disk s1) exc_vol = 99%nat /\ free_entries (s_disk s2) exc_vol = 100%nat
+  | _, _ => False
+  end.
+Proof. vm_compute. repeat split; reflexivity. Qed.
+
+(* a FAT32 record for the info-sector theorems: 100 clusters, blank device, count 100 *)
+Definition exi_vol : vol :=
+  mk_vol 0 0 10 1000 [] 2 20 1 (Some 3) (Some 100) (Some 2) 100 true 0 0 5 2.
+Example info_example :
+  no_faults (PrAlloc.ex_state exi_vol) /\ cache_ok (PrAlloc.ex_state exi_vol) /\
+  nth_error (s_vols (PrAlloc.ex_state exi_vol)) 0 = Some exi_vol /\ v_fat32 exi_vol = true /\
+  v_clusters exi_vol + 2 <= U32 /\
+  length (disk_get (s_disk (PrAlloc.ex_state exi_vol)) (v_info exi_vol)) = 512%nat /\
+  truthful (s_disk (PrAlloc.ex_state exi_vol)) exi_vol /\ hint_in exi_vol /\
+  (forall c, in_vol exi_vol c -> v_info exi_vol <> fat_sector exi_vol 0 c) /\
+  match update_info_sector 0 (PrAlloc.ex_state exi_vol) with
+  | (Ok tt, s') => le32 (disk_get (s_disk s') 5) 488 = 100 /\ le32 (disk_get (s_disk s') 5) 492 = 2
+  | _ => False
+  end.
+Proof.
+  destruct (ex_state_ok exi_vol) as (A & B).
+  split; [exact A|]. split; [exact B|]. split; [reflexivity|]. split; [reflexivity|].
+  split; [vm_compute; discriminate|]. split; [vm_compute; reflexivity|]. split; [vm_compute; reflexivity|].
+  split; [intros h E; inversion E; subst h; vm_compute; split; [discriminate|reflexivity]|].
+  split.
+  - intros c (C1 & C2). unfold fat_sector, fat_copy_sector, fat_copy_start, fat_width.
+    cbn [v_info v_lba v_fat_start v_fat32 exi_vol N.eqb]. change (v_clusters exi_vol) with 100 in C2. lia.
+  - vm_compute. split; reflexivity.
+Qed.
+
+(* ================================================================== 8. assumptions *)
+Print Assumptions free_entries_fill.
+Print Assumptions free_entries_keep.
+Print Assumptions free_entries_free_list.
+Print Assumptions alloc_count_delta.
+Print Assumptions alloc_keeps_truthful.
+Print Assumptions truncate_count_delta.
+Print Assumptions free_chain_count_delta.
+Print Assumptions C16_hint_range_alloc.
+Print Assumptions C16_hint_range_truncate.
+Print Assumptions C16_hint_range_free.
+Print Assumptions C16_hint_range.
+Print Assumptions C16_stale_hint_harmless.
+Print Assumptions alloc_n_spec.
+Print Assumptions C05_capacity.
+Print Assumptions C05_no_further.
+Print Assumptions alloc_chain_spec.
+Print Assumptions fill_free_spec.
+Print Assumptions C05_fill_free_refill.
+Print Assumptions C16_info_truthful.
+Print Assumptions C16_info_unknown_untouched.
+Print Assumptions count_pre_example.
+Print Assumptions count_pre_example32.
+Print Assumptions capacity_run_example.
+Print Assumptions info_example.
